@@ -47,6 +47,13 @@ func (e *Engine) verifyFunction(fn *ssa.Function, opt *Options) *FuncResult {
 		res.Fatal = append(res.Fatal, err.Error())
 	}
 	res.Fatal = append(res.Fatal, t.fatal...)
+	if t.own != nil && !t.stopped {
+		for _, ac := range t.own.Asserts2 {
+			if !t.assertsSeen[ac.Label] {
+				res.Fatal = append(res.Fatal, fmt.Sprintf("assert %s (%s): call %s#%d not found", ac.Label, ac.Where, ac.Callee, ac.N))
+			}
+		}
+	}
 	res.Abstracted = t.abstracted
 	for k := range t.unknownCallees {
 		res.Unknown = append(res.Unknown, k)
